@@ -21,10 +21,13 @@ RULE = ("cases: (hist) provider-core histories generated against a live provider
         "(fs) operation sequences (set/get/del/contains/keys/len/clear/new instance) on AbstractFileSystem over real temporary directories with "
         "URL-shaped, quoted, spaced, Unicode, dotted, '.lock'-suffixed and over-long keys, default and pass-through key conversion, JSON and "
         "pass-through values — compared with the Lean file-store model; oracle: a new instance over the directory equals a Python dict. "
+        "(rp) multi-flow relying-party histories (two issuers, recombined responses) with every client's service context exported, the "
+        "clients discarded and fresh ones importing it, between all / some / one pair of steps, directly and through a JSON text — compared "
+        "with the RP state model and with the unrestored run. "
         "non-trivial: a history with at least one restore after state exists / an fs sequence with a delete, overwrite or new instance")
 MODELLED = ("modelled: ImpExp.dump/load per object (parameter tables regenerated from /repo), the provider core (restore = identity), "
-            "AbstractFileSystem incl. lock files, cache and synch. NOT modelled: JSON syntax of values, modification-time granularity and "
-            "concurrent writers of the file store, the relying-party side (Current/ServiceContext) — see DESIGN.md")
+            "AbstractFileSystem incl. lock files, cache and synch; the relying party's state store (C09's model: restore = identity). "
+            "NOT modelled: JSON syntax of values, modification-time granularity and concurrent writers of the file store")
 ASSUMPTIONS = ["the configuration pins every key (token handlers, session-id cipher, provider signing keys): the harness configures it so",
                "single writer per directory; file modification times strictly increase between writes"]
 
@@ -50,6 +53,19 @@ def cases(rng, tier):
         out.append(gen_aux(rng))
     for _ in range(nf):
         out.append(gen_fs(rng))
+    # relying-party side: multi-flow histories (C09's generator) with export / discard / import of every client between steps
+    import c09
+    for _ in range({"quick": 25, "thorough": 500, "search": 250}[tier]):
+        ops = c09.gen(rng, rng.randint(5, 12))
+        mode = rng.choice(["ctx", "json"])
+        k = rng.choice(["all", "some", "one"])
+        pts = set(range(1, len(ops))) if k == "all" else set(rng.sample(range(1, len(ops)), max(1, len(ops) // 3))) if k == "some" else {rng.randrange(1, len(ops))}
+        with_crash = []
+        for i, o in enumerate(ops):
+            if i in pts:
+                with_crash.append(["crash", mode])
+            with_crash.append(o)
+        out.append({"t": "rp", "ops": with_crash})
     return out
 
 
@@ -413,6 +429,16 @@ def _run_fs(c):
 # ------------------------------------------------------------------ interface
 
 def impl(c):
+    if c["t"] == "rp":
+        import c09
+        obs = c09.impl({"t": "hist", "ops": c["ops"]})
+        ref = c09.impl({"t": "hist", "ops": [o for o in c["ops"] if o[0] != "crash"]})
+        STATS["restores"] += sum(1 for o in c["ops"] if o[0] == "crash")
+        # values are random per run: compare outcomes and the SHAPE of the stores (which fields are filled), not the values
+        def shape(d):
+            return {i: sorted([[x is not None for x in r[:3]] + [r[3] is not None, r[4] is not None] for r in v["db"].values()]) for i, v in d.items()}
+        return {"c09": obs, "steps": [[s["r"], shape(s["after"])] for s in obs["steps"] if True],
+                "ref": [[s["r"], shape(s["after"])] for s in ref["steps"]]}
     if c["t"] == "hist":
         steps, rows, fails = _run_hist(c, True)
         ref, _, _ = _run_hist(c, False)
@@ -430,6 +456,9 @@ def _bytes(s):
 
 
 def model_lines(c, obs):
+    if c["t"] == "rp":
+        import c09
+        return c09.model_lines({"ops": c["ops"]}, obs["c09"])
     if c["t"] == "hist":
         lines = [prov.cfg_line(c["oidc"], c["jwt"])] + [prov.model_line(o) for o in c["ops"]]
         for r in obs["rows"]:
@@ -481,6 +510,10 @@ def _fs_expect(c, o, out):
 
 
 def compare(c, obs, outs):
+    if c["t"] == "rp":
+        import c09
+        # the RP state model has no restore step: a crash line is a no-op, the store dump after it must equal the one before
+        return c09.compare({"ops": c["ops"]}, obs["c09"], outs)
     if c["t"] == "hist":
         n = len(c["ops"])
         d = prov.compare_history(c["ops"], obs["steps"], outs[:n + 1])
@@ -538,6 +571,17 @@ def _good_key(c, k):
 
 def oracle(c, obs):
     v = []
+    if c["t"] == "rp":
+        got = [s for s, o in zip(obs["steps"], c["ops"]) if o[0] != "crash"]
+        for i, (a, b) in enumerate(zip(got, obs["ref"])):
+            if a != b:
+                v.append({"cls": "restored-relying-party-answers-differently", "step": i, "restored": a[0], "original": b[0]})
+                break
+        for s, o in zip(obs["c09"]["steps"], c["ops"]):
+            if o[0] == "crash" and (s["r"] != "ok" or s["after"] != s["before"]):
+                v.append({"cls": "relying-party-state-lost-on-restore", "how": s.get("how")})
+                break
+        return v[:1]
     if c["t"] == "hist":
         if obs["fails"]:
             v.append({"cls": "restore-raises", "mode": c["mode"], "keys": c["keys"], "step": obs["fails"][0][0], "what": obs["fails"][0][1]})
@@ -593,6 +637,8 @@ def known_key(c, v, known):
 
 
 def classify(c, obs):
+    if c["t"] == "rp":
+        return "rp:" + str(sum(1 for o in c["ops"] if o[0] == "crash"))
     if c["t"] == "hist":
         return f"hist:{c['mode']}:{c['keys']}:{'jwt' if c['jwt'] else 'opaque'}:{'all' if len(c['crash']) == len(c['ops']) else len(c['crash'])}"
     if c["t"] == "aux":
@@ -601,6 +647,8 @@ def classify(c, obs):
 
 
 def nontrivial(c, obs):
+    if c["t"] == "rp":
+        return True
     if c["t"] == "hist":
         return any(i > 0 for i in c["crash"])
     if c["t"] == "aux":
